@@ -61,6 +61,11 @@ func init() {
 		if err != nil {
 			return map[string]any{"reject": "toml"}
 		}
+		if B(op, "typed") {
+			op["decoded"] = map[string]any{"hook": toAnyList(c.Media.Hook), "primary": c.Style.Colors.Primary, "error": c.Style.Colors.Error,
+				"highlight": c.Style.Colors.Highlight, "code_background": c.Style.Colors.Code, "preload_amount": c.Network.Context,
+				"timeout_seconds": int64(c.Network.Timeout), "cache_size": c.Network.CacheSize}
+		}
 		if err := config.VerifPostprocess(c); err != nil {
 			m := keyInMessage.FindStringSubmatch(err.Error())
 			if m == nil {
@@ -164,8 +169,17 @@ func genC19(r *rand.Rand, n int, emit func(Op)) {
 			for _, k := range []string{"preload_amount", "timeout_seconds", "cache_size"} {
 				if r.Intn(2) == 0 {
 					v := pick(r, []int{-1000, -2, -1, 0, 0, 1, 1, 2, 5, 10, 128, 1000})
+					if r.Intn(4) == 0 {
+						/* around the edges of int32, of what a duration holds, and of int64 */
+						v = pick(r, []int{1<<31 - 1, 1 << 31, 1 << 32, 9223372035, 9223372036, 9223372037, 9223372038, 18446744073, 18446744074, 1 << 62, 1<<63 - 1, -1 << 63, -9223372037, 1e12})
+					}
 					raw[k] = v
-					b.WriteString(fmt.Sprintf("%s = %d\n", k, v))
+					/* keys are matched without regard to case */
+					name := k
+					if r.Intn(8) == 0 {
+						name = pick(r, []string{strings.ToUpper(k), strings.Title(k), strings.ToUpper(k[:1]) + k[1:]})
+					}
+					b.WriteString(fmt.Sprintf("%s = %d\n", name, v))
 				}
 			}
 		}
@@ -199,6 +213,22 @@ func genC19(r *rand.Rand, n int, emit func(Op)) {
 			b.WriteString("[feeds]\nhome = [\"@a@b.example\"]\n")
 		}
 		op := Op{"op": "config", "toml": b.String(), "raw": raw, "expect": expect}
+		if expect == "" && r.Intn(8) == 0 {
+			/* a value of another TOML type: whether the decoder takes it is the decoder's business
+			   (a string is a valid duration, say); what it decoded is what the model starts from */
+			line := pick(r, []string{
+				"[network]\ntimeout_seconds = \"10s\"\n", "[network]\ntimeout_seconds = \"1s\"\n", "[network]\ntimeout_seconds = \"-1s\"\n",
+				"[network]\ntimeout_seconds = \"3h\"\n", "[network]\ntimeout_seconds = \"9ns\"\n", "[network]\ntimeout_seconds = \"2562047h\"\n",
+				"[network]\ntimeout_seconds = \"abc\"\n", "[network]\ntimeout_seconds = 1.5\n", "[network]\ntimeout_seconds = true\n",
+				"[network]\ntimeout_seconds = 1e3\n", "[network]\ntimeout_seconds = 9223372036854775808\n",
+				"[network]\ncache_size = \"3\"\n", "[network]\ncache_size = 2.0\n", "[network]\ncache_size = 0x10\n", "[network]\ncache_size = 1_000\n",
+				"[network]\npreload_amount = 1.0\n", "[network]\npreload_amount = \"5\"\n", "[network]\npreload_amount = +7\n", "[network]\npreload_amount = 0o17\n",
+				"[network]\npreload_amount = [1]\n", "[media]\nhook = \"mpv\"\n", "[media]\nhook = [1, 2]\n", "[media]\nhook = [[\"mpv\"]]\n", "[media]\nhook = []\n",
+				"[style.colors]\nprimary = 5\n", "[style.colors]\nprimary = [\"#000000\"]\n", "[style]\ncolors = \"#000000\"\n",
+				"[NETWORK]\ncache_size = 0\n", "[Network]\nTimeout_Seconds = -3\n", "[Media]\nHook = []\n", "[Style.Colors]\nPrimary = \"red\"\n",
+				"network.cache_size = 0\n", "network = { cache_size = 0, preload_amount = 3 }\n", "media = { hook = [] }\n"})
+			op = Op{"op": "config", "toml": line, "raw": map[string]any{}, "expect": "", "typed": true}
+		}
 		if r.Intn(20) == 0 {
 			op = Op{"op": "config", "toml": "", "raw": map[string]any{}, "expect": "", "missing": true}
 		}
